@@ -395,6 +395,231 @@ Proof.
       * intros _. simpl. unfold upd. rewrite Z.eqb_refl. reflexivity.
 Qed.
 
+(* ---------- dll_inv for pvDeleteBuffer, pvNewBuffer, the pvNewBlock insertion and pvMoveBufferToHead ---------- *)
+(* first element gets a new predecessor AND last element a new successor *)
+Lemma dseg_change h h' p p' l q q' :
+  dseg h p l q -> NoDup l ->
+  (forall x, In x l -> x <> hd 0 l -> hprev h' x = hprev h x) ->
+  (l <> [] -> hprev h' (hd 0 l) = p') ->
+  (forall x, In x l -> x <> lastd l p -> hnext h' x = hnext h x) ->
+  (l <> [] -> hnext h' (lastd l p) = q') ->
+  dseg h' p' l q'.
+Proof.
+  destruct l as [|x t]; intros D ND FP FH FN FL; [exact I|].
+  simpl in D. destruct D as (D1 & D2 & D3). inversion ND as [|? ? Nx NDt]; subst.
+  simpl. split; [apply FH; congruence|].
+  destruct t as [|y t'].
+  - simpl in *. split; [apply FL; congruence|exact I].
+  - split.
+    + simpl. rewrite FN; [exact D2|left; reflexivity|].
+      intro E. apply Nx. rewrite E. simpl. apply (lastd_in (y :: t') x). congruence.
+    + apply dseg_retarget with (h := h) (q := q); auto.
+      * intros z Hz. apply FP; [right; exact Hz|]. simpl. intro; subst. exact (Nx Hz).
+      * intros z Hz Hn. apply FN; [right; exact Hz|exact Hn].
+      * intros _. apply FL. congruence.
+Qed.
+
+(* ---------- pvDeleteBuffer ---------- *)
+Theorem delete_buffer_dll h A B b head :
+  dll h (A ++ b :: B) -> head <> b ->
+  exists h', delete_buffer h head b = Some h' /\ dll h' (A ++ B) /\
+             (forall x, ~ In x (A ++ b :: B) -> hprev h' x = hprev h x /\ hnext h' x = hnext h x).
+Proof.
+  intros (ND & NZ & D) Nh. unfold delete_buffer.
+  destruct (Z.eqb_spec b head) as [E|_]; [congruence|].
+  apply dseg_app in D. destruct D as (DA & DB). simpl in DB. destruct DB as (Ep & En & DB').
+  set (pa := lastd A 0) in *. set (nb := hd 0 B) in *.
+  rewrite Ep, En.
+  destruct (NoDup_remove _ _ _ ND) as (ND' & Nb).
+  pose proof (NoDup_app_l _ _ ND') as NDA. pose proof (NoDup_app_r _ _ ND') as NDB.
+  assert (forall x, In x A -> x <> 0 /\ x <> b) as FA.
+  { intros x Hx. split; intro; subst; [apply NZ|apply Nb]; rewrite in_app_iff; auto. }
+  assert (forall x, In x B -> x <> 0 /\ x <> b) as FB.
+  { intros x Hx. split; intro; subst; [apply NZ|apply Nb]; rewrite in_app_iff; simpl; auto. }
+  assert (forall x, In x A -> In x B -> False) as dAB by (intros x; apply NoDup_app_disj; exact ND').
+  assert (pa = 0 \/ In pa A) as CA by (unfold pa; destruct (lastd_cases A) as [(_ & E)|(_ & H)]; auto).
+  assert (nb = 0 \/ In nb B) as CB by (unfold nb; destruct B; simpl; auto).
+  eexists. split; [reflexivity|].
+  set (h1 := if negb (pa =? 0) then set_next h pa nb else h).
+  set (h2 := if negb (nb =? 0) then set_prev h1 nb pa else h1).
+  assert (forall x, hprev h2 x = if negb (nb =? 0) && (x =? nb) then pa else hprev h x) as HP.
+  { intros x. unfold h2, h1. destruct (nb =? 0); destruct (pa =? 0); simpl; unfold upd; destruct (x =? nb); reflexivity. }
+  assert (forall x, hnext h2 x = if negb (pa =? 0) && (x =? pa) then nb else hnext h x) as HN.
+  { intros x. unfold h2, h1. destruct (nb =? 0); destruct (pa =? 0); simpl; unfold upd; destruct (x =? pa); reflexivity. }
+  clearbody h2. split; [split; [exact ND'|split]|].
+  - intro H0. apply NZ. rewrite in_app_iff in *. simpl. tauto.
+  - apply dseg_app. split.
+    + fold nb. apply dseg_retarget with (h := h) (q := b); auto.
+      * intros x Hx. rewrite HP. destruct CB as [E|Hn]; [rewrite E; reflexivity|].
+        destruct (Z.eqb_spec x nb) as [E|]; [subst; exfalso; exact (dAB _ Hx Hn)|]. rewrite andb_false_r. reflexivity.
+      * intros x Hx Hn. fold pa in Hn. rewrite HN. destruct (Z.eqb_spec x pa); [congruence|]. rewrite andb_false_r. reflexivity.
+      * intros NE. fold pa. rewrite HN. rewrite Z.eqb_refl.
+        assert (pa <> 0) as P0 by (destruct (lastd_cases A) as [(E & _)|(_ & H)]; [congruence|]; fold pa in H; apply (FA _ H)).
+        destruct (Z.eqb_spec pa 0); [congruence|]. reflexivity.
+    + fold pa. apply dseg_rehead with (h := h) (p := b); auto.
+      * intros x Hx. rewrite HN. destruct CA as [E|Ha]; [rewrite E; reflexivity|].
+        destruct (Z.eqb_spec x pa) as [E|]; [subst; exfalso; exact (dAB _ Ha Hx)|]. rewrite andb_false_r. reflexivity.
+      * intros x Hx. rewrite HP. destruct B as [|y t]; [destruct Hx|]. simpl in Hx. unfold nb. simpl.
+        destruct (Z.eqb_spec x y) as [E|]; [|rewrite andb_false_r; reflexivity].
+        subst. inversion NDB; subst. contradiction.
+      * intros NE. rewrite HP. fold nb. rewrite Z.eqb_refl.
+        assert (nb <> 0) as N0 by (destruct B as [|y t]; [congruence|]; unfold nb; simpl; apply (FB y); left; reflexivity).
+        destruct (Z.eqb_spec nb 0); [congruence|]. reflexivity.
+  - intros x Hx. rewrite HP, HN. rewrite in_app_iff in Hx. simpl in Hx.
+    assert (x <> pa \/ pa = 0) as [E|E] by (destruct CA as [|Ha]; [auto|left; intro; subst; tauto]);
+    assert (x <> nb \/ nb = 0) as [E'|E'] by (destruct CB as [|Hb]; [auto|left; intro; subst; tauto]);
+    repeat match goal with |- context[?a =? ?b] => destruct (Z.eqb_spec a b); try congruence end; simpl; auto.
+Qed.
+
+(* ---------- pvNewBuffer (627-628) and the insertion after the head in pvNewBlock (527-529) ---------- *)
+Theorem new_buffer_dll h nb : nb <> 0 -> dll (new_buffer h nb) [nb].
+Proof.
+  intros N. unfold dll, new_buffer. simpl. repeat split.
+  - repeat constructor; simpl; tauto.
+  - intros [E|[]]. congruence.
+  - unfold upd. rewrite Z.eqb_refl. reflexivity.
+  - unfold upd. rewrite Z.eqb_refl. reflexivity.
+Qed.
+
+Theorem append_new_buffer_dll h A head nb :
+  dll h (A ++ [head]) -> nb <> 0 -> ~ In nb (A ++ [head]) ->
+  dll (append_new_buffer h head nb) (A ++ [head; nb]) /\
+  (forall x, ~ In x (A ++ [head; nb]) -> hprev (append_new_buffer h head nb) x = hprev h x /\ hnext (append_new_buffer h head nb) x = hnext h x).
+Proof.
+  intros (ND & NZ & D) N0 Nin.
+  assert (forall x, hprev (append_new_buffer h head nb) x = if x =? nb then head else hprev h x) as HP.
+  { intros x. unfold append_new_buffer, new_buffer. simpl. unfold upd. destruct (x =? nb); reflexivity. }
+  assert (forall x, hnext (append_new_buffer h head nb) x = if x =? head then nb else if x =? nb then 0 else hnext h x) as HN.
+  { intros x. unfold append_new_buffer, new_buffer. simpl. unfold upd. destruct (x =? head); destruct (x =? nb); reflexivity. }
+  set (h' := append_new_buffer h head nb) in *. clearbody h'.
+  assert (head <> nb) as Nhn by (intro; subst; apply Nin; rewrite in_app_iff; simpl; auto).
+  split; [split; [|split]|].
+  - replace (A ++ [head; nb]) with ((A ++ [head]) ++ [nb]) by (rewrite <- app_assoc; reflexivity).
+    apply NoDup_app_intro; auto; [repeat constructor; simpl; tauto|]. intros x H1 [E|[]]. subst. contradiction.
+  - intro H0. rewrite in_app_iff in H0. simpl in H0. apply NZ. rewrite in_app_iff. simpl. destruct H0 as [|[|[|[]]]]; auto; congruence.
+  - replace (A ++ [head; nb]) with ((A ++ [head]) ++ [nb]) by (rewrite <- app_assoc; reflexivity).
+    apply dseg_app. split.
+    + simpl hd. apply dseg_retarget with (h := h) (q := 0); auto.
+      * intros x Hx. rewrite HP. destruct (Z.eqb_spec x nb); [subst; contradiction|reflexivity].
+      * intros x Hx Hn. rewrite lastd_app in Hn. rewrite HN.
+        destruct (Z.eqb_spec x head); [congruence|]. destruct (Z.eqb_spec x nb); [subst; contradiction|reflexivity].
+      * intros _. rewrite lastd_app. rewrite HN. rewrite Z.eqb_refl. reflexivity.
+    + rewrite lastd_app. simpl. rewrite HP, HN. rewrite Z.eqb_refl.
+      destruct (Z.eqb_spec nb head); [congruence|]. auto.
+  - intros x Hx. rewrite HP, HN. rewrite in_app_iff in Hx. simpl in Hx.
+    destruct (Z.eqb_spec x nb); [subst; tauto|]. destruct (Z.eqb_spec x head); [subst; tauto|]. auto.
+Qed.
+
+Ltac solve_in := simpl in *; rewrite ?in_app_iff in *; simpl in *; rewrite ?in_app_iff in *; simpl in *; tauto.
+
+(* ---------- pvMoveBufferToHead ---------- *)
+Theorem move_to_head_dll h A B R b head :
+  dll h (A ++ b :: B ++ head :: R) ->
+  exists h', move_to_head h head b = Some (h', b) /\ dll h' (A ++ B ++ b :: head :: R) /\
+             (forall x, ~ In x (A ++ b :: B ++ head :: R) -> hprev h' x = hprev h x /\ hnext h' x = hnext h x).
+Proof.
+  intros (ND & NZ & D).
+  assert (Permutation (A ++ b :: B ++ head :: R) (A ++ B ++ b :: head :: R)) as P.
+  { apply Permutation_app_head. apply Permutation_middle. }
+  apply dseg_app in D. destruct D as (DA & DB). simpl in DB. destruct DB as (Ebp & Ebn & DB').
+  apply dseg_app in DB'. destruct DB' as (DBs & DH). simpl in DH. destruct DH as (Ehp & Ehn & DR).
+  set (pa := lastd A 0) in *. set (hp := lastd B b) in *.
+  assert (forall x, In x (A ++ b :: B ++ head :: R) -> x <> 0) as F0 by (intros x Hx E; subst; exact (NZ Hx)).
+  assert (head <> 0) as H0 by (apply F0; solve_in).
+  unfold move_to_head. rewrite Ehp.
+  destruct B as [|c B'].
+  - (* b is already the predecessor of the head *)
+    simpl in hp. subst hp.
+    assert (b <> 0) as Nb0 by (apply F0; solve_in).
+    destruct (Z.eqb_spec b 0) as [|_]; [congruence|]. rewrite Z.eqb_refl. simpl negb. cbv iota.
+    exists h. split; [reflexivity|]. split; [|auto].
+    split; [exact ND|]. split; [exact NZ|].
+    apply dseg_app. split; [exact DA|]. simpl. auto.
+  - simpl in Ebn. simpl app in *.
+    (* distinctness *)
+    destruct (NoDup_remove _ _ _ ND) as (ND1 & Nb).            (* b not in A ++ (c::B') ++ head :: R *)
+    assert (NoDup (A ++ (c :: B') ++ head :: R)) as ND1' by exact ND1.
+    pose proof (NoDup_app_l _ _ ND1) as NDA. pose proof (NoDup_app_r _ _ ND1) as ND2.
+    change (c :: B' ++ head :: R) with ((c :: B') ++ head :: R) in ND2.
+    destruct (NoDup_remove _ _ _ ND2) as (ND3 & Nhd).           (* head not in (c::B') ++ R *)
+    pose proof (NoDup_app_l _ _ ND3) as NDB. pose proof (NoDup_app_r _ _ ND3) as NDR.
+    assert (forall x, In x A -> In x ((c :: B') ++ head :: R) -> False) as dA.
+    { intros x H1 H2. exact (NoDup_app_disj A _ x ND1 H1 H2). }
+    assert (forall x, In x (c :: B') -> In x R -> False) as dBR by (intros x; apply NoDup_app_disj; exact ND3).
+    assert (forall x, In x A -> x <> b /\ x <> head /\ x <> c /\ x <> 0 /\ ~ In x (c :: B') /\ ~ In x R) as FA.
+    { intros x Hx. repeat split; try (intro E; subst x).
+      - apply Nb. solve_in.
+      - apply (dA head Hx). solve_in.
+      - apply (dA c Hx). solve_in.
+      - apply (F0 0); [solve_in|reflexivity].
+      - intro H. apply (dA x Hx). solve_in.
+      - intro H. apply (dA x Hx). solve_in. }
+    assert (forall x, In x (c :: B') -> x <> b /\ x <> head /\ x <> 0 /\ ~ In x A /\ ~ In x R) as FB.
+    { intros x Hx. repeat split; try (intro E; subst x).
+      - apply Nb. solve_in.
+      - apply Nhd. solve_in.
+      - apply (F0 0); [solve_in|reflexivity].
+      - intro H. apply (dA x H). solve_in.
+      - intro H. exact (dBR x Hx H). }
+    assert (forall x, In x R -> x <> b /\ x <> head /\ x <> 0 /\ ~ In x A /\ ~ In x (c :: B')) as FR.
+    { intros x Hx. repeat split; try (intro E; subst x).
+      - apply Nb. solve_in.
+      - apply Nhd. solve_in.
+      - apply (F0 0); [solve_in|reflexivity].
+      - intro H. apply (dA x H). solve_in.
+      - intro H. exact (dBR x H Hx). }
+    assert (b <> head) as Nbh by (intro E; apply Nb; rewrite E; solve_in).
+    assert (b <> 0) as Nb0 by (apply F0; solve_in).
+    assert (In hp (c :: B')) as Hhp by (unfold hp; apply (lastd_in (c :: B') b); congruence).
+    destruct (FB hp Hhp) as (Nhpb & Nhph & Nhp0 & NhpA & NhpR).
+    destruct (FB c (or_introl eq_refl)) as (Ncb & Nch & Nc0 & NcA & NcR).
+    assert (pa = 0 \/ In pa A) as CA by (unfold pa; destruct (lastd_cases A) as [(_ & E)|(_ & H)]; auto).
+    destruct (Z.eqb_spec hp 0) as [|_]; [congruence|].
+    destruct (Z.eqb_spec b hp) as [|_]; [congruence|]. simpl negb. cbv iota.
+    rewrite Ebp, Ebn. destruct (Z.eqb_spec c 0) as [|_]; [congruence|].
+    eexists. split; [reflexivity|].
+    match goal with |- dll ?hh _ /\ _ => set (h' := hh) end.
+    assert (forall x, hprev h' x = if x =? head then b else if x =? b then hp else if x =? c then pa else hprev h x) as HP.
+    { intros x. unfold h'. destruct (pa =? 0); simpl; unfold upd;
+      repeat match goal with |- context[?a =? ?b] => destruct (Z.eqb_spec a b); try congruence end. }
+    assert (forall x, hnext h' x = if x =? hp then b else if x =? b then head
+                                   else if negb (pa =? 0) && (x =? pa) then c else hnext h x) as HN.
+    { intros x. unfold h'. destruct (Z.eqb_spec pa 0); simpl; unfold upd;
+      repeat match goal with |- context[?a =? ?b] => destruct (Z.eqb_spec a b); try congruence end. }
+    clearbody h'.
+    split; [split; [|split]|].
+    + eapply Permutation_NoDup; [exact P|exact ND].
+    + intro H. apply NZ. eapply Permutation_in; [apply Permutation_sym; exact P|exact H].
+    + apply dseg_app. split.
+      * simpl hd. apply dseg_retarget with (h := h) (q := b); auto.
+        -- intros x Hx. destruct (FA x Hx) as (?&?&?&?&?&?). rewrite HP. ev.
+        -- intros x Hx Hn. fold pa in Hn. destruct (FA x Hx) as (?&?&?&?&?&?). rewrite HN.
+           assert (x <> hp) by (intro; subst; contradiction). ev.
+        -- intros NE. fold pa. destruct CA as [E|Ha]; [exfalso; destruct (lastd_cases A) as [(E' & _)|(_ & H)]; [congruence|]; fold pa in H; rewrite E in H; destruct (FA 0 H) as (_&_&_&Z0&_); congruence|].
+           destruct (FA pa Ha) as (?&?&?&?&?&?). rewrite HN. assert (pa <> hp) by (intro E; rewrite E in *; contradiction). ev.
+      * fold pa. change (c :: B' ++ b :: head :: R) with ((c :: B') ++ b :: head :: R). apply dseg_app. split.
+        -- simpl hd. apply dseg_change with (h := h) (p := b) (q := head); auto.
+           ++ intros x Hx Hn. simpl in Hn. destruct (FB x Hx) as (?&?&?&?&?). rewrite HP. ev.
+           ++ intros _. simpl hd. rewrite HP. ev.
+           ++ intros x Hx Hn. fold hp in Hn. destruct (FB x Hx) as (?&?&?&?&?). rewrite HN.
+              assert (pa = 0 \/ x <> pa) as [E|E] by (destruct CA as [|Ha]; [auto|right; intro; subst; contradiction]); [rewrite E|]; ev.
+           ++ intros _. fold hp. rewrite HN. ev.
+        -- fold hp. simpl. repeat split.
+           ++ rewrite HP. ev.
+           ++ rewrite HN. ev.
+           ++ rewrite HP. ev.
+           ++ rewrite HN, Ehn.
+              assert (pa = 0 \/ head <> pa) as [E|E] by (destruct CA as [|Ha]; [auto|right; intro E; rewrite <- E in Ha; destruct (FA head Ha) as (_&X&_); congruence]); [rewrite E|]; ev.
+           ++ apply dseg_frame with (h := h); auto. intros x Hx. destruct (FR x Hx) as (R1 & R2 & R3 & R4 & R5). rewrite HP, HN.
+              assert (x <> c) by (intro Ec; apply R5; rewrite Ec; left; reflexivity).
+              assert (x <> hp) by (intro Eh; apply R5; rewrite Eh; exact Hhp).
+              assert (pa = 0 \/ x <> pa) as [E|E] by (destruct CA as [|Ha]; [auto|right; intro Ep; apply R4; rewrite Ep; exact Ha]); [rewrite E|]; split; ev.
+    + intros x Hx. rewrite HP, HN. rewrite in_app_iff in Hx. simpl in Hx. rewrite in_app_iff in Hx. simpl in Hx.
+      assert (x <> head /\ x <> b /\ x <> c /\ x <> hp) as (?&?&?&?).
+      { repeat split; intro; subst; apply Hx; try tauto. right. right. left. simpl in Hhp. tauto. }
+      assert (pa = 0 \/ x <> pa) as [E|E] by (destruct CA as [|Ha]; [auto|right; intro; subst; tauto]); [rewrite E|]; split; ev.
+Qed.
+
 (* ---------- concrete runs: the fixed MergeFrom keeps the invariant, the pre-fix code does not ---------- *)
 Definition merged_list (loop : nat -> heap -> Z -> Z -> option heap) (l1 : list Z) (head1 : Z) (l2 : list Z) (head2 : Z)
   : option (list Z * Z) :=
